@@ -118,6 +118,20 @@ func Load(cfg Config) (*Program, error) {
 	}
 	p.AllFuncs = ssautil.AllFunctions(prog)
 	fieldInvariantFuncs = p.ModuleFuncs()
+	CalleesOfSite = func(site ssa.CallInstruction) []*ssa.Function { return p.Callees(site) }
+	CallersOf = func(fn *ssa.Function) []ssa.CallInstruction {
+		n := p.CallGraph().Nodes[fn]
+		if n == nil {
+			return nil
+		}
+		var out []ssa.CallInstruction
+		for _, e := range n.In {
+			if e.Site != nil && InModule(e.Caller.Func) {
+				out = append(out, e.Site)
+			}
+		}
+		return out
+	}
 	return p, nil
 }
 
